@@ -34,6 +34,9 @@ def load_contracts(src):
         except ModuleNotFoundError as e:
             if ('contracts.' + mod) not in str(e):
                 raise
+    import contracts.exprs as exprs
+    if 'construct.expr:ExprMixin.__add__' not in contract.REGISTRY:
+        exprs.register_exprs(src)
     import contracts.composites as comp
     if 'construct.core:Struct._parse' not in contract.REGISTRY:
         comp.register_composites(src)
